@@ -15,6 +15,7 @@ mod c18;
 mod c18x;
 mod c18loop;
 mod c13l2;
+mod c11l2;
 mod c19;
 mod consts;
 mod core;
@@ -97,6 +98,7 @@ fn main() {
         "c18x" => c18x::run(&a),
         "c18loop" => c18loop::run(&a),
         "c13l2" => c13l2::run(&a),
+        "c11l2" => c11l2::run(&a),
         "c19" => c19::run(&a),
         "coremix" => coregen::run(&a, "CORE", "CoreMix", &["mix", "c07", "c03", "c04", "c05", "c08", "c09", "c11", "c13", "c20"]),
         "c03" => coregen::run(&a, "C03", "C03", &["c03"]),
